@@ -206,6 +206,8 @@ type instance struct {
 	bc        *blockchain.BlockChain
 	best      uint32
 	dead      bool // a panic of the code under test escaped while processing
+	initReplay bool // blocks are delivered with init=true, as BlockChain.InitCheckpoint replays them
+	replayTip  *simBlock
 }
 
 func (w *world) newInstance(name string) *instance {
